@@ -15,29 +15,31 @@
                transaction in which every operation succeeded the committed data is exactly the
                previous data plus its writes, after Abort exactly the previous data; no panic;
      k_hit   : the step is in the guard of finding K-C13-stickymulti: a Put/Get issued outside an
-               explicit transaction after some Start has succeeded (pgDb.multi is never cleared);
-     k_trf   : the step is in the guard of finding K-C13-trfetch: a Get with a translation key
-               whose row fetch on the translated key failed.
+               explicit transaction after some Start has succeeded (pgDb.multi is never cleared).
    All theorems quantify over every key context c, every initial content, every operation
    sequence (Put/Get/Start/Stop/Abort/Close) and EVERY fault oracle (any number of faults). *)
 From Vise Require Import Bytes Errors Consts PgTx PgProofs.
 Local Open Scope N_scope.
 
-(* FULL STATEMENT (false for the code as it is, see C13_refuted_trfetch):
-     forall c init ops orc, forallb k_fault (pg_checks c init ops orc) = true.
-   Proved for every step outside the guard of K-C13-trfetch. The row-fetch fault on the DEFAULT key
-   is reported, but as ErrNotFound (rs.Err() is never consulted) — an error, so k_fault holds. *)
-Theorem C13_fault_reports_error_partial : forall c init ops orc,
-  forallb (fun k => k_trf k || k_fault k) (pg_checks c init ops orc) = true.
-Proof. exact fault_guarded_run. Qed.
+(* Full strength, no guard: in every history, every operation other than Abort (which has no error
+   result: its Rollback error is dropped) in which a fault fired returns an error. The row-fetch fault
+   on the DEFAULT key is reported as ErrNotFound (rs.Err() is not consulted there) — an error, so the
+   demand holds; on the translated key it is reported as the fault itself (since 8748493). *)
+Theorem C13_fault_reports_error : forall c init ops orc,
+  forallb k_fault (pg_checks c init ops orc) = true.
+Proof. exact fault_run. Qed.
 
-Theorem C13_refuted_trfetch :
-  exists c init ops orc,
-    trf_hit (pg_checks c init ops orc) = true
-    /\ sticky_hit (pg_checks c init ops orc) = false
-    /\ forallb k_fault (pg_checks c init ops orc) = false
-    /\ map o_res (pg_run c init ops orc) = [POk; PVal (s2b "D"); PVal (s2b "T")].
-Proof. exact refuted_trfetch_lemma. Qed.
+(* regression for the repaired finding K-C13-trfetch: the failed row fetch on the translated key is
+   now reported instead of silently answering with the default-language row *)
+Example C13_trfetch_reported :
+  let c := wit_trans in
+  let init := [(4 :: s2b "a", s2b "D")] in
+  let ops := [PPut (s2b "a") (s2b "T"); PGet (s2b "a"); PGet (s2b "a")] in
+  let orc := [false; false; false; false; false; true] in
+  c13_full (pg_checks c init ops orc) = true
+  /\ map o_res (pg_run c init ops orc) = [POk; PErr EFault; PVal (s2b "T")]
+  /\ map o_open (pg_run c init ops orc) = [0; 0; 0].
+Proof. exact trfetch_reported_lemma. Qed.
 
 (* FULL STATEMENT (false, see C13_refuted_stickymulti):
      forall c init ops orc, forallb k_hyg (pg_checks c init ops orc) = true.
@@ -91,7 +93,7 @@ Theorem C13_multi_none_after_abort : forall c st body,
   s_comm (p_srv st') = s_comm (p_srv st) /\ s_open (p_srv st') = [].
 Proof. exact multi_none_after_abort_lemma. Qed.
 
-(* non-vacuity: a history outside both guards with four faults (Commit of the second Put, the row
+(* non-vacuity: a history outside the guard with three faults (Commit of the second Put, the row
    fetch of the first Get, BeginTx of the third Put; then an explicit transaction) satisfies the
    whole monitor, every faulted operation reports an error, and the final data is a = "3" only:
    "2" (Commit failed) and b (BeginTx failed) were never acknowledged *)
@@ -101,15 +103,14 @@ Example C13_nonvacuous :
               PStart; PPut a (s2b "3"); PGet a; PStop] in
   let orc := [false; false; false;  false; false; true;  false; false; true;  false; true] in
   let ks := pg_checks wit_user [] ops orc in
-  c13_full ks = true /\ sticky_hit ks = false /\ trf_hit ks = false
+  c13_full ks = true /\ sticky_hit ks = false
   /\ map o_res (pg_run wit_user [] ops orc) =
      [POk; PErr EFault; PErr ENotFound; PErr EFault; PErr ENotFound; POk; POk; PVal (s2b "3"); POk]
   /\ map o_open (pg_run wit_user [] ops orc) = [0; 0; 0; 0; 0; 1; 1; 1; 0]
   /\ o_comm (last (pg_run wit_user [] ops orc) (mkPobs POk 0 [] [])) = [(32 :: s2b "s.a", s2b "3")].
 Proof. vm_compute. repeat split. Qed.
 
-Print Assumptions C13_fault_reports_error_partial.
-Print Assumptions C13_refuted_trfetch.
+Print Assumptions C13_fault_reports_error.
 Print Assumptions C13_tx_hygiene_partial.
 Print Assumptions C13_tx_hygiene_unconditional.
 Print Assumptions C13_recovers_partial.
